@@ -73,6 +73,8 @@ static std::vector<std::string> seeds() {
         "[1]:\n  - k[2]: 1,2\n    m[1]: 3\n", "[1]:\n  - a: 1\n    [2]: x,y\n", "[1]:\n  - [2]: 1,2\n", "[1]:\n  - [2]:\n    - 1\n    - 2\n", "[1]:\n  - a[1]{x}:\n      1\n    b: 2\n",
         "[2]:\n  -:\n    [2]", "[2]:\n  - a:\n      b: 1\n    c[2]: 1,2\n  - d: 2\n", "[1]:\n  - k[1]:\n      - z: 1\n        [1]: 2\n", "[2|]: 1|2\n", "[2\t]: 1\t2\n", "a[#2]: 1,2\n", "a[2]{x,y:\n  1,2\n",
         "[3]:\n  - 1\n\n  - 2\n  - 3\n", "[1]:\n  -\n", "[1]:\n  - \"q\": 1\n    \"r\"[1]: 2\n", "\"k\"[1]{\"a\"}:\n  1\n", "a.b.c: 1\n", "a:\n  - 1\n", "[0]:\n", "x[0]:\ny: 1\n",
+        // scalar tokens around the number grammar: exponents without mantissa, huge / overlong exponents, signs, leading zeros
+        "e5", "E732760", "x: 1e5\n", "x: 1e400\n", "x: -e3\n", "e000000000000000000000", "x: 1E+99999999999999999999\n", "x: 1e-400\n", "x: 0e9999999\n", "[3]: 1e2,-0,01\n", "x: 1.5e-3\ny: -0.0\nz: 1.\n", "x: .5\n", "x: +1\n", "x: 1e\n", "x: 1e+\n", "x: --1\n", "x: 0x10\n",
     };
 }
 // encode_toon(value, std::ostream&) does not compile in the pinned tree (try_encode_toon calls encode_value with
